@@ -84,6 +84,24 @@ impl MemStore {
             .faults
             .push((client, request, kind.to_string()));
     }
+    /// Fault for the n-th request overall (any client), counted from 1.
+    pub fn add_global_fault(&self, request: u64, kind: &str) {
+        self.add_fault(usize::MAX, request, kind);
+    }
+    /// Remove every object except those named in `keep`.
+    pub fn clear_except(&self, keep: &[&str]) {
+        let mut i = self.0.lock().unwrap();
+        i.objects.retain(|o| keep.contains(&o.0.as_str()));
+        i.log.clear();
+        i.counts.clear();
+        i.faults.clear();
+    }
+    pub fn remove_raw(&self, name: &str) {
+        self.0.lock().unwrap().objects.retain(|o| o.0 != name);
+    }
+    pub fn set_now(&self, now: u64) {
+        self.0.lock().unwrap().now = now;
+    }
     pub fn reset_counts(&self) {
         self.0.lock().unwrap().counts.clear();
     }
@@ -134,9 +152,10 @@ impl MemService {
         let n = i.counts[self.client];
         i.log
             .push((self.client, kind.to_string(), name.to_string()));
+        let g = i.log.len() as u64;
         i.faults
             .iter()
-            .find(|(c, r, _)| *c == self.client && *r == n)
+            .find(|(c, r, _)| (*c == self.client && *r == n) || (*c == usize::MAX && *r == g))
             .map(|(_, _, k)| k.clone())
     }
 }
